@@ -3,6 +3,7 @@ import Capella.Lemmas.CoupledAssign
 import Capella.Gen.Descr
 import Capella.Gen.Acc
 import Capella.Lemmas.AccessorProps
+import Capella.Lemmas.AccessorRound5
 
 /-!
 # C08 — model-coupled lists behave like Python lists and write through
@@ -244,7 +245,46 @@ theorem C08_attr_delete_partial (elems : List Nat) (obj : Nat) (h : elems.count 
       simp only [List.filter_cons, hne, if_true, List.erase_cons, hne', ih hc]
       simp
 
+/-- Round 5. The virtual ReqIF relations (`ModelElement.requirements`, `Requirement.related`) refuse every edit of their
+lists – `insert`/`append` and `del`/`remove` with NotImplementedError, whole-list / item / slice assignment and `del
+owner.rel` with TypeError – and nothing changes: no tree, no index, no detached element. -/
+theorem virtual_relation_refuses_every_edit (t : Tables) (row : ARow) (o : Nat) (es : List Nat) (i : Int) (v : Val) (x : Nat)
+    (vs : List Val) (s : State) (hk : row.kind = .elementRelationAccessor) :
+    ((accInsert t row o es i v s).val = .error .notImplemented ∧ Same s (accInsert t row o es i v s).st) ∧
+    ((accDelete t row o es x s).val = .error .notImplemented ∧ Same s (accDelete t row o es x s).st) ∧
+    ((accSet t row o vs s).val = .error .typeError ∧ Same s (accSet t row o vs s).st) ∧
+    ((accDel t row o s).val = .error .typeError ∧ Same s (accDel t row o s).st) :=
+  elementRelation_refuses t row o es i v x vs s hk
+
+/-- Round 5. `TypecastAccessor.insert` of an object that is not an instance of the class the relation casts to is refused
+with TypeError before the relation it delegates to is looked up; nothing changes. -/
+theorem typecast_insert_of_wrong_class_changes_nothing (t : Tables) (row : ARow) (o : Nat) (es : List Nat) (i : Int) (v : Nat)
+    (cls : String) (s : State) (hk : row.kind = .typecastAccessor) (hc : row.elemClass = some cls)
+    (hi : (isInstanceOf t v cls s).val = .ok false) :
+    (accInsert t row o es i (.elem v) s).val = .error .typeError ∧ Same s (accInsert t row o es i (.elem v) s).st :=
+  typecast_insert_wrong_class t row o es i v cls s hk hc hi
+
 end Accessor
+
+-- Non-vacuity (round 5): element 3 of a small model has the unregistered type "T", so its class is `ModelElement`; it is
+-- not an instance of the class "X" a Typecast relation casts to; the list of a Typecast relation is coupled to the
+-- relation of that name on the owner's class.
+section Round5Example
+open Capella.Accessor Capella.AccTable Capella.Index
+def r5Rows : List Capella.Accessor.Row :=
+  [⟨1, none, "root", [("id", "r")], none⟩, ⟨2, some 1, "ownedPkg", [("id", "p")], some "P"⟩,
+   ⟨3, some 2, "ownedMember", [("id", "m")], some "T"⟩]
+def r5State : State := { frags := [{ name := "m", semantic := true, idtypes := ["id"], rows := r5Rows }], ix := [] }
+def r5ME : CRow := ⟨"capellambse.model._obj.ModelElement", "ModelElement", none, none, [], ["capellambse.model._obj.ModelElement"], none⟩
+def r5Inner : ARow := ⟨"capellambse.model._obj.ModelElement", "links", .linkAccessor, true, true, 0, false, ["L"], some "ownedLinks", some "target", none, [], false, none, [], none, []⟩
+def r5Cast : ARow := ⟨"capellambse.model._obj.ModelElement", "xs", .typecastAccessor, true, true, 0, false, [], none, some "links", none, [], false, some "X", [], none, []⟩
+def r5Virt : ARow := ⟨"capellambse.model._obj.ModelElement", "requirements", .elementRelationAccessor, true, true, 0, false, [], none, none, none, [], false, none, [], some "long_name", []⟩
+def r5T : Tables := ⟨[r5Inner, r5Cast, r5Virt], [r5ME]⟩
+example : (match (isInstanceOf r5T 3 "X" r5State).val with | .ok false => true | _ => false) = true := by decide +kernel
+example : (match (coupledRow r5T r5Cast 2 r5State).val with | .ok r => r.attr == "links" | _ => false) = true := by decide +kernel
+example : (match (apiStep r5T (.insert r5Virt 2 (some []) 0 (.elem 3)) r5State).val with
+    | .error .notImplemented => true | _ => false) = true := by decide +kernel
+end Round5Example
 
 -- Non-vacuity (round 4): members 1, 2, 3; `lst[0] = 9` drops 1 only; `owner.rel = [3, 1]` drops 2 only
 example : Capella.Accessor.setDropped [1, 2, 3] [.elem 9, .elem 2, .elem 3] = [1] := by decide
